@@ -7,7 +7,11 @@ from functools import cached_property, lru_cache
 from typing_extensions import List, Dict, TYPE_CHECKING, Optional, Set, Type
 
 from .dao import AlternativeMapping
-from .utils import InheritanceStrategy, module_and_class_name
+from .utils import (
+    InheritanceStrategy,
+    module_and_class_name,
+    module_and_qualified_class_name,
+)
 from ..class_diagrams.class_diagram import (
     WrappedClass,
 )
@@ -496,7 +500,7 @@ class WrappedTable:
         """
 
         self.ormatic.imported_modules.add(wrapped_field.type_endpoint.__module__)
-        inner_type = module_and_class_name(wrapped_field.type_endpoint)
+        inner_type = module_and_qualified_class_name(wrapped_field.type_endpoint)
         type_annotation = (
             f"{module_and_class_name(Optional)}[{inner_type}]"
             if wrapped_field.is_optional
@@ -656,7 +660,7 @@ class WrappedTable:
         self.ormatic.imported_modules.add("typing_extensions")
         column_name = wrapped_field.field.name
         container = Set if issubclass(wrapped_field.container_type, set) else List
-        column_type = f"Mapped[{module_and_class_name(container)}[{module_and_class_name(wrapped_field.type_endpoint)}]]"
+        column_type = f"Mapped[{module_and_class_name(container)}[{module_and_qualified_class_name(wrapped_field.type_endpoint)}]]"
         column_constructor = f"mapped_column(JSON, nullable={wrapped_field.is_optional}, use_existing_column=True)"
         self.custom_columns.append(
             ColumnConstructor(column_name, column_type, column_constructor)
